@@ -1,14 +1,14 @@
 SPECIFICATION Spec
 CONSTANTS
-  MaxH = 2
-  MaxRestarts = 1
+  MaxH = 1
+  MaxRestarts = 2
   FullNode = TRUE
   Cap = 2
-  Weaken = "gateStrict"
+  Weaken = "saveContinuesAfterError"
   GapFix = FALSE
   CertRounds = {1}
   Direct = FALSE
   MidCrash = FALSE
   Timeouts = FALSE
-  MaxWriteFaults = 0
-PROPERTY NoRerun
+  MaxWriteFaults = 1
+PROPERTY RestartCoversLearned
